@@ -52,6 +52,12 @@ CLAIMS["C14"] = dict(
 CLAIMS["C15"] = dict(
     text="Every string up to the bound (every code point symbolic, lone surrogates included) and 2/3-character symbolic windows over grammar sentences go through the real from_string: only a filter or FilterSyntaxError with an in-range offset/length may come out; on acceptance every attribute description / matching rule is RFC 4512-valid (membership formula, layered so that pinned deviations keep separate signatures) and str(result) re-parses to an equal result. Plus an unbounded z3 string-theory query: L(library attribute pattern with Python's $) is included in RFC 4512.",
     ref="DESIGN.md 3/C15", technique="symbolic execution of the real parser on symbolic text (SX) + z3; z3 regex-theory language inclusion (no length bound)")
+CLAIMS["C16"] = dict(
+    text="Objects of the three description classes for a covering set of field-presence combinations with symbolic contents (description / extension text: 1..3 code points over ALL scalar values; OIDs and descriptors over all RFC 4512-valid strings of the given length; symbolic syntax length) go through the real __str__ and from_string (the description regexes are executed by a matcher that follows sre's priority order on symbolic characters); z3 proves from_string(str(d)) == d.",
+    ref="DESIGN.md 3/C16", technique="symbolic execution of the real serializer+parser incl. their regexes (SX) + z3 validity queries")
+CLAIMS["C17"] = dict(
+    text="Sentences generated from the RFC 4512 ABNF of the three descriptions (single/parenthesised lists, 0..2 extensions, AD quoted SYNTAX, quoted-string pieces incl. \\27 \\5c \\5C and non-ASCII, every SP/WSP position varied) carry the object the grammar denotes; z3 proves the real parser returns equal fields. Totality: 2-character symbolic windows over the sentences yield a definition or ValueError on every path.",
+    ref="DESIGN.md 3/C17", technique="symbolic execution of the real parser on grammar sentences with symbolic holes (SX) + z3; generator-with-semantics as oracle")
 PENDING = {}
 
 def main():
